@@ -34,11 +34,20 @@ def main(tier: str) -> int:
         return [{"l": C.rat(float(l)), "r": C.rat(float(r)), "bits": int(b)}
                 for l, r, b in zip(g.get_left_border(), g.get_right_border(), g.get_bits_per_variable())]
 
+    calls, used = {}, {}
+
     def one_grid(cls, left, right, bits, dtype, full=True):
         gray = cls is GrayCode
         nvar = len(bits)
-        g = cls().fit(left_border=np.array(left, dtype=np.float64), right_border=np.array(right, dtype=np.float64),
-                      num_variables=nvar, bits_per_variable=np.array(bits, dtype=np.int64))
+        # every other grid re-fits an instance that has already been fitted and used with another configuration
+        # ("for a fitted SamplingGrid or GrayCode": the current fit is the one that counts)
+        calls[cls] = calls.get(cls, 0) + 1
+        reuse = calls[cls] % 2 == 0 and cls in used
+        g = used[cls] if reuse else cls()
+        chk.count("refitted_instance" if reuse else "fresh_instance")
+        g = g.fit(left_border=np.array(left, dtype=np.float64), right_border=np.array(right, dtype=np.float64),
+                  num_variables=nvar, bits_per_variable=np.array(bits, dtype=np.int64))
+        used[cls] = g
         total = int(sum(bits))
         if int(g.get_str_len()) != total:
             chk.fail("get_str_len differs from the sum of the bits", {"bits": bits}, {"fn": "get_str_len"})
@@ -49,7 +58,13 @@ def main(tier: str) -> int:
             rows += [tuple([0] * total), tuple([1] * total)]
         pop = np.array(rows, dtype=dtype)
         before = pop.copy()
-        out = g.transform(pop)
+        try:
+            out = g.transform(pop)
+        except Exception as e:  # noqa
+            chk.fail("transform raises on bit strings of the stated total length", {"grid": cls.__name__, "bits": bits, "refitted_instance": reuse, "error": repr(e)[:200]},
+                     {"fn": "transform", "clause": "raises"})
+            used.pop(cls, None)
+            return
         if not np.array_equal(pop, before):
             chk.fail("transform modified its input", {"bits": bits}, {"fn": "transform"})
         vj = vars_json(g)
